@@ -38,6 +38,7 @@ structure Obs where
   eb : Nat := 0                 -- floor(elapsed of Close / TerminateDuration)
   death : DeathObs := .nr       -- from ProcessState when Close returned cmd.Wait's result
   term : TermObs := .none
+  eofSeen : Bool := true        -- the child saw EOF on its stdin (or Server.Run returned) before any SIGTERM it logged
   gone : Bool := true           -- the process no longer exists (not even as a zombie)
   leak : Bool := false          -- goroutines of the transport left
   second : SecondObs := .na
@@ -46,7 +47,7 @@ deriving DecidableEq, Repr, Inhabited
 
 inductive Clause
   | noReturn | late | childLeft | goroutineLeft | notWaited | resultWrong | termEarly | killEarly
-  | giveUpEarly | killWithoutTerm | secondHang | secondDiffers | pendingHang
+  | giveUpEarly | killWithoutTerm | secondHang | secondDiffers | pendingHang | termWithoutEof
 deriving DecidableEq, Repr, Inhabited
 
 /-! ### the property, clause by clause, as predicates on the observation -/
@@ -69,6 +70,8 @@ def P_giveUp (o : Obs) : Prop := o.res = .unresp → 3 ≤ o.eb
 def P_order (c : Class) (o : Obs) : Prop := c.term ≠ .dfl → o.death = .sk → o.term ≠ .none
 def P_second (o : Obs) : Prop := o.second ≠ .hang ∧ o.second ≠ .diff
 def P_pending (o : Obs) : Prop := o.pend ≠ .hang
+/-- stdin is closed FIRST: a child that reports a SIGTERM has seen EOF on its stdin before. -/
+def P_eofFirst (o : Obs) : Prop := o.term ≠ .none → o.eofSeen = true
 
 /-- The monitor: the first clause of C05 (stdio side) the observation violates. -/
 def monitor (c : Class) (o : Obs) : Option Clause :=
@@ -85,6 +88,7 @@ def monitor (c : Class) (o : Obs) : Option Clause :=
   else if o.second = .hang then some .secondHang
   else if o.second = .diff then some .secondDiffers
   else if o.pend = .hang then some .pendingHang
+  else if o.term ≠ .none ∧ o.eofSeen = false then some .termWithoutEof
   else none
 
 /-! ### the model's observation of a run -/
@@ -115,6 +119,7 @@ def modelObs (c : Class) (e : Env) : Obs :=
     term := match s.termAt with
       | some t => if c.term = .dfl then .none else .at (t / e.td)
       | none => .none
+    eofSeen := s.stdinClosed || !s.termAt.isSome
     gone := (exitTime e s.termAt s.killAt).isSome
     leak := s.waiter && !(exitTime e s.termAt s.killAt).isSome
     second := match c.second with
@@ -174,12 +179,12 @@ def connectFails (c : Class) : Bool := c.sess && c.garbage
 explains it (with the model's values for everything the model determines), else the nominal run. -/
 def modelLine (c : Class) (o : Obs) : Obs :=
   if connectFails c then
-    { connectOk := false, res := .na, eb := 0, death := .nr, term := o.term, gone := true, leak := false, second := .na, pend := .na }
+    { connectOk := false, res := .na, eb := 0, death := .nr, term := o.term, eofSeen := o.eofSeen || o.term != .none, gone := true, leak := false, second := .na, pend := .na }
   else
     match explain c o with
     | some e =>
       let m := modelObs c e
-      { m with eb := o.eb, term := o.term, pend := if c.pending then (if o.pend = .err then .err else .ok) else .na }
+      { m with eb := o.eb, term := o.term, eofSeen := o.eofSeen || o.term != .none, pend := if c.pending then (if o.pend = .err then .err else .ok) else .na }
     | none =>
       let m := modelObs c (nominalEnv c)
       { m with eb := (run (nominalEnv c)).expiries }
